@@ -56,6 +56,11 @@ def scenario_docs():
         # a group with a list directly after a math environment
         [{'k': 'mathenv', 'name': 'math', 'body': [T()]}, {'k': 'group', 'body': [lst(item([], T(1, nl=True)))]}],
         [{'k': 'mathenv', 'name': 'equation', 'body': [T()]}, C('\n'), {'k': 'group', 'body': [lst(item([], C(' a')))]}, T()],
+        # three and four arguments whose texts may coincide (the solver chooses)
+        [cmd(N(), br(T()), br(T()), br(T())), T()],
+        [cmd(N(), bk(T()), bk(T()), br(T())), cmd('q', br(C('a')), br(C('a')), br(C('b')))],
+        [env(N(), [br(T()), br(T()), br(C('z'))], T())],
+        [cmd('q', bk(C('a')), bk(C('a')), br(C('b')), br(C('a')), br(C('c')))],
         # environment names are arbitrary text between the braces
         [env('[tex]', [], T()), T()],
         [env('a-b', [br(T())], env('x.y', [], T()))],
